@@ -7,9 +7,9 @@
    what a verdict OK means, that no reference of the tree escapes it, CTE order, monotonicity -- and the finite
    dialect / template tables the compiler's own flags must agree with. *)
 From Coq Require Import List NArith ZArith Bool.
-From PV Require Import Lib.ListX Model.SqlAst Model.SqlScope Model.SqlScopeTok Model.DialectFeat
+From PV Require Import Lib.ListX Model.SqlAst Model.SqlScope Model.SqlScopeX Model.SqlScopeTok Model.DialectFeat
   Model.Checked Model.RangeArith Model.SelectClauses
-  Proofs.SqlScopeProofs Proofs.SqlScopeTok Proofs.SqlScopeDialect Proofs.SelectClausesProofs Gen.GenDialectFeat.
+  Proofs.SqlScopeProofs Proofs.SqlScopeXProofs Proofs.SqlScopeTok Proofs.SqlScopeDialect Proofs.SelectClausesProofs Gen.GenDialectFeat.
 Import ListNotations.
 Local Open Scope N_scope.
 
@@ -95,6 +95,79 @@ Example c07_ex_forward_rejected : well_scoped strict ex_schema ex_q_forward = Ba
 Proof. vm_compute. reflexivity. Qed.
 Example c07_ex_empty_projection : well_scoped strict ex_schema
   (Query false CNil (SSelect DNone ENil INil (TTable false 10 10 ENil TNil) ENil ENil ENil) ENil no_limit) = Bad DEmptyProj.
+Proof. vm_compute. reflexivity. Qed.
+
+(* ------------------------------------------------------------------------------------------ second layer: binding beyond resolution
+   (Model/SqlScopeX.v: ambiguity of column references incl. duplicate output names of sub-queries, validity of window
+   frames, GROUP BY discipline; same traversal, same environments and frames as the first layer) *)
+
+Theorem c07_x_verdict_is_conjunction : forall XP P te q,
+  well_formed_x XP P te q = true <-> Forall (fun o => xobl_ok XP o = true) (xobligations P te q).
+Proof. exact xws_ok_iff. Qed.
+Print Assumptions c07_x_verdict_is_conjunction.
+
+(* every column reference and every window frame of the syntax tree gets its obligation, exactly once, in order *)
+Theorem c07_x_sites_complete : forall P te q, omap site_of_xobl (xobligations P te q) = xr_query q.
+Proof. exact xsites_complete. Qed.
+Print Assumptions c07_x_sites_complete.
+
+Theorem c07_x_bare_unambiguous : forall XP P te q,
+  well_formed_x XP P te q = true -> forall sc al cl c, In (XAmbBare sc al cl c) (xobligations P te q) ->
+  mem c al = false -> (bare_count sc c <= 1)%nat.
+Proof. exact bare_unambiguous. Qed.
+Print Assumptions c07_x_bare_unambiguous.
+
+Theorem c07_x_qualified_unambiguous : forall XP P te q,
+  well_formed_x XP P te q = true -> forall sc cl qq c, In (XAmbQual sc cl qq c) (xobligations P te q) ->
+  (qual_count sc qq c <= 1)%nat.
+Proof. exact qual_unambiguous. Qed.
+Print Assumptions c07_x_qualified_unambiguous.
+
+(* a frame the checker accepts obeys the static rules of the SQL grammar for frames *)
+Theorem c07_x_frames_valid : forall XP P te q,
+  well_formed_x XP P te q = true -> forall u s e n, In (XWFrame u s e n) (xobligations P te q) ->
+  s <> WFol None /\ end_of e <> WPrec None /\
+  (s = WCur -> forall k, end_of e <> WPrec k) /\
+  (forall j, s = WFol j -> exists k, end_of e = WFol k) /\
+  (u = 2 -> (bound_has_offset s = true \/ bound_has_offset (end_of e) = true) -> n = 1%nat).
+Proof. intros XP P te q H u s e n Hin. apply frame_valid_spec. exact (frames_valid XP P te q H u s e n Hin). Qed.
+Print Assumptions c07_x_frames_valid.
+
+(* under the strict profile every column the checker met outside an aggregate call in the select list, HAVING or ORDER BY
+   of an aggregate SELECT is a grouping column (or, bare, an output name where the clause admits one) *)
+Theorem c07_x_grouped : forall XP P te q, bare_agg XP = false ->
+  well_formed_x XP P te q = true -> forall kc ks outs cl qq c, In (XGrouped kc ks outs cl qq c) (xobligations P te q) ->
+  key_match kc ks qq c = true \/ (qq = None /\ mem c outs = true).
+Proof. exact grouped_columns. Qed.
+Print Assumptions c07_x_grouped.
+
+Theorem c07_x_select_list_covered : forall kc ks i qc,
+  In qc (fc_items i) -> In (XGrouped kc ks [] CProj (fst qc) (snd qc)) (x_gitems kc ks i).
+Proof. exact gitems_cover. Qed.
+Print Assumptions c07_x_select_list_covered.
+
+(* sensitivity: the three classes on small queries over t(10) = {a(1), b(2)}; SUM is interned as 3 *)
+(* SELECT SUM(a) OVER (RANGE BETWEEN 1 PRECEDING AND 1 FOLLOWING) FROM t      -- finding N14 *)
+Example c07_ex_range_frame_rejected : xdiag_codes xstrict strict ex_schema
+  (Query false CNil (SSelect DNone ENil (IExpr (EWin 3 (ECons (ECol None 1) ENil) ENil ENil (WFrame 2 (WPrec (Some 1)) (Some (WFol (Some 1))))) 5 INil)
+                       (TTable false 10 10 ENil TNil) ENil ENil ENil) ENil no_limit) = [(23, 2, 4, 0)].
+Proof. vm_compute. reflexivity. Qed.
+(* WITH x(11) AS (SELECT t.a, t.a FROM t) SELECT a FROM x                      -- a sub-query with two columns of one name, read by name *)
+Example c07_ex_duplicate_output_rejected : xdiag_codes xstrict strict ex_schema
+  (Query false (CCons 11 (Query false CNil (SSelect DNone ENil (IExpr (ECol (Some 10) 1) 0 (IExpr (ECol (Some 10) 1) 0 INil)) (TTable false 10 10 ENil TNil) ENil ENil ENil) ENil no_limit) CNil)
+     (SSelect DNone ENil (IExpr (ECol None 1) 0 INil) (TTable false 11 11 ENil TNil) ENil ENil ENil) ENil no_limit) = [(21, 1, 1, 0)].
+Proof. vm_compute. reflexivity. Qed.
+(* SELECT SUM(a) AS s, b FROM t            -- what fix 8d54bf7 removed; accepted under the SQLite profile only *)
+Definition ex_q_ungrouped : query :=
+  Query false CNil (SSelect DNone ENil (IExpr (EApp 3 (ECons (ECol None 1) ENil)) 7 (IExpr (ECol None 2) 0 INil)) (TTable false 10 10 ENil TNil) ENil ENil ENil) ENil no_limit.
+Example c07_ex_ungrouped_rejected : xdiag_codes xstrict strict ex_schema ex_q_ungrouped = [(24, 1, 0, 2)].
+Proof. vm_compute. reflexivity. Qed.
+Example c07_ex_ungrouped_sqlite : well_formed_x (mkXProf true) strict ex_schema ex_q_ungrouped = true.
+Proof. vm_compute. reflexivity. Qed.
+(* SELECT b, SUM(a) AS s FROM t GROUP BY b ORDER BY s *)
+Example c07_ex_grouped_ok : well_formed_x xstrict strict ex_schema
+  (Query false CNil (SSelect DNone ENil (IExpr (ECol None 2) 0 (IExpr (EApp 3 (ECons (ECol None 1) ENil)) 7 INil)) (TTable false 10 10 ENil TNil) ENil (ECons (ECol None 2) ENil) ENil)
+     (ECons (ECol None 7) ENil) no_limit) = true.
 Proof. vm_compute. reflexivity. Qed.
 
 (* ------------------------------------------------------------------------------------------ single statement *)
